@@ -213,7 +213,7 @@ impl Prop for C17 {
         "exploration"
     }
     fn rule(&self, _t: Tier) -> String {
-        "(a) globs: every pattern of 1..3 tokens (thorough 4) over {a b . / + ( [ * ? \\* \\? \\\\} x every path of 0..2 characters (thorough 3; 2 for 4-token patterns) over {a b . / + ( [ * ? \\}, through FilesParagraph::matches of both readers against a backtracking matcher written from the statement; (b) lookup: every copyright file of 0..2 (thorough 3) Files paragraphs x (1-2 patterns from 5, second one on the same or its own line) x 4 licence kinds, with 0..2 stand-alone licence paragraphs (names L0/L1 in every order) x 6 paths, through find_files / find_license_for_file / find_license_by_name / iter_* of both readers against 'last match wins; own licence text else first stand-alone of that name'; (c) texts not starting with Format; all cases distinct; non-trivial = all".into()
+        "(a) globs: every pattern of 1..3 tokens (thorough 4) over {a b . / + ( [ * ? \\* \\? \\\\} x every path of 0..2 characters (thorough 3; 2 for 4-token patterns) over {a b . / + ( [ * ? \\}, through FilesParagraph::matches of both readers against a backtracking matcher written from the statement; (b) lookup: every copyright file of 0..2 Files paragraphs (thorough: a third paragraph from 8 representative configurations) x (1-2 patterns from 5, second one on the same or its own line) x 4 licence kinds, with 0..2 stand-alone licence paragraphs (names L0/L1 in every order) x 6 paths, through find_files / find_license_for_file / find_license_by_name / iter_* of both readers against 'last match wins; own licence text else first stand-alone of that name'; (c) texts not starting with Format; all cases distinct; non-trivial = all".into()
     }
     fn bounds(&self, t: Tier) -> Value {
         json!({"pattern_tokens": PAT_TOKENS, "path_chars": PATH_CHARS, "max_pattern_tokens": t.pick(3, 4), "max_path_len": t.pick(2, 3), "lookup_patterns": LOOKUP_PATTERNS, "lookup_paths": LOOKUP_PATHS, "max_files_paragraphs": t.pick(2, 3)})
@@ -270,7 +270,8 @@ impl Prop for C17 {
         for second in &cfgs {
             emit(&vec![first, *second]);
             if t == Tier::Thorough {
-                for third in &cfgs {
+                // third paragraph: 8 representative configurations (every first pattern with licence kind 0, three with a second pattern)
+                for third in cfgs.iter().step_by(10) {
                     emit(&vec![first, *second, *third]);
                 }
             }
